@@ -636,6 +636,20 @@ def r2_predict(ctx, repo, cls):
         elif ae is not None and ae.target is not None and ae.target.kind == "value" and ae.recv == ("getattr_dyn", ("ret", ce.id), opt):
             op = "<option>"
             dynamic = True
+        if op is None and ae is not None and ae.target is not None and ae.target.kind == "value" and isinstance(ae.recv, tuple) \
+                and ae.recv[0] == "item" and ae.recv[2] == opt and isinstance(ae.recv[1], tuple) and ae.recv[1][0] == "dict":
+            # dispatch table {"name": y_pred.<operator>, ...}[self.aggfunc](axis=1): one table row per key
+            rows, shape_ok = [], True
+            for k_, v_ in ae.recv[1][1]:
+                if is_const(k_) and isinstance(k_[1], str) and isinstance(v_, tuple) and v_[0] == "getattr" and v_[1] == ("ret", ce.id):
+                    rows.append((k_[1], v_[2]))
+                else:
+                    shape_ok = False
+            if shape_ok and rows:
+                axis_check(ctx, res, C + ":aggregate-axis:<table>", ae.arg(0, "axis"), "the dispatched aggregate runs", loc_of(ae))
+                for nm_, op_ in rows:
+                    table.setdefault(nm_, set()).add(op_)
+                continue
         if op is None:
             bad_shape.append(r)
             continue
